@@ -459,6 +459,7 @@ pub fn explore_main(prop: &dyn Prop, tier: Tier, replay_one: impl Fn(&Value) -> 
     let mut skipped_after_crash = 0u64;
     let mut tags: Vec<String> = vec![];
     let mut machinery_error: Option<String> = None;
+    let mut aborted_early = false;
     loop {
         let mut all_done = true;
         let mut respawn: Vec<(u64, u64)> = vec![];
@@ -517,14 +518,27 @@ pub fn explore_main(prop: &dyn Prop, tier: Tier, replay_one: impl Fn(&Value) -> 
             }
         }
         for (shard, after) in respawn {
-            if crash_viol.len() > 50 {
-                machinery_error.get_or_insert("more than 50 worker crashes; giving up".into());
+            if crash_viol.len() >= 24 {
+                // Every crash / hang is a violation witness already; stop exploring instead of
+                // spending the budget on further watchdog expiries.  The run is reported as
+                // not exhaustive.
+                aborted_early = true;
                 break;
             }
             // forget the stale progress record before restarting
             let _ = std::fs::remove_file(rundir.join(format!("w{shard}.cur")));
             children.push(Child { shard, start_after: Some(after), proc: spawn_worker(&exe, id, tier, shard, nworkers, Some(after), &rundir), done: false });
             all_done = false;
+        }
+        if aborted_early {
+            for c in children.iter_mut() {
+                if !c.done {
+                    let _ = c.proc.kill();
+                    let _ = c.proc.wait();
+                    c.done = true;
+                }
+            }
+            break;
         }
         if all_done || machinery_error.is_some() {
             break;
@@ -642,7 +656,7 @@ pub fn explore_main(prop: &dyn Prop, tier: Tier, replay_one: impl Fn(&Value) -> 
     }
 
     let wall = t0.elapsed().as_secs_f64();
-    let exhaustive = skipped_after_crash == 0;
+    let exhaustive = skipped_after_crash == 0 && !aborted_early;
     let ev = json!({
         "property_id": id,
         "tier": tier.name(),
@@ -670,6 +684,7 @@ pub fn explore_main(prop: &dyn Prop, tier: Tier, replay_one: impl Fn(&Value) -> 
             "violation_classes": viols.iter().map(|(k, v)| (k.clone(), v.0)).collect::<BTreeMap<_, _>>(),
             "max_call_ms": max_call_ms,
             "skipped_after_crash": skipped_after_crash,
+            "aborted_after_many_crashes": aborted_early,
         },
         "assumptions": info.assumptions,
         "wall_s": (wall * 1000.0).round() / 1000.0,
